@@ -120,7 +120,7 @@ def fresh_name(rng, used_fn, used_wire, wild_p=0.25):
 
 
 def gen_args(rng, maxn=3):
-    if maxn >= 3 and rng.random() < 0.06:
+    if rng.random() < (0.06 if maxn >= 3 else 0.12):
         # many same-typed parameters: positional mix-ups (field10 vs field2 ...) only show here
         ty = rng.choice([P("u32"), P("String"), P("i64")])
         return [{"name": "q%d" % i, "ty": ty} for i in range(rng.choice([10, 11, 12, 13]))]
